@@ -143,7 +143,7 @@ func specMimc(c *mon.Ctx, mi *mimcInst) {
 	// the round function must be a permutation of F_q (MiMC, Albrecht et al. 2016, section 2: gcd(d, q-1) = 1)
 	g := gcdInt(mi.d, mi.q)
 	c.Class(P + "/params")
-	if observe(c, "params", P+"/params/sbox-exponent-not-coprime-to-q-1", g == 1, func() string {
+	observe(c, "params", P+"/params/sbox-exponent-not-coprime-to-q-1", g == 1, func() string {
 		// witness through the library: E_0 is not injective
 		z := rootOfUnity(mi.d, mi.q)
 		m := big.NewInt(12345)
@@ -158,8 +158,7 @@ func specMimc(c *mon.Ctx, mi *mimcInst) {
 		}
 		return fmt.Sprintf("d=%d divides q-1 (gcd=%d): x -> x^%d is %d-to-1, the documented round function is not a permutation. Library witness: E_0(m)=H(m)-m is %s for m=%s and %s for the different m'=(m+c0)*zeta-c0=%s (zeta=%s of order %d)",
 			mi.d, g, mi.d, g, dg(m).Text(16), m.Text(16), dg(m2).Text(16), m2.Text(16), z.Text(16), mi.d)
-	}); false {
-	}
+	})
 	// constants
 	c.Class(P + "/GetConstants")
 	c.Guard(P+"/GetConstants/panic", func() string { return "GetConstants()" }, func() {
